@@ -239,3 +239,63 @@ Definition koracle (c : kcase) : bool :=
   end.
 
 Definition kboth (c : kcase) : bool := koracle c && kagree c.
+
+(** ** retry-queue suite: a second Emit lands at a chosen point of the reply / timeout path of the first *)
+From SioV Require Import Sio.AckQueue.
+
+Record qcase := mkQcase {
+  qc_kind : nat;      (* 0: the server answers at once; 1: it ignores the first attempt of packet 0;
+                         2: it never answers packet 0 (Retries = 1 in all of them) *)
+  qc_pos : nat;       (* index in the canonical schedule of packet 0 before which the second emitter runs
+                         (addToQueue + its drainQueue(false)); beyond the end = afterwards *)
+  qc_obs0 : list outcome; qc_obs1 : list outcome;   (* invocations of the two callbacks *)
+  qc_sent0 : nat; qc_sent1 : nat                    (* how often the server received each packet *)
+}.
+
+Definition q_reply (p : nat) : outcome := OReply [N.of_nat (100 * (p + 1))].
+
+Definition q_policy (kind p tr : nat) : outcome :=
+  match kind with
+  | 0 => q_reply p
+  | 1 => if Nat.eqb p 0 && Nat.eqb tr 1 then OTimeout else q_reply p
+  | _ => if Nat.eqb p 0 then OTimeout else q_reply p
+  end.
+
+Definition ra5 (k : nat) : list qlabel := repeat (QRA k) 5.
+
+Definition q_base (kind : nat) : list qlabel :=
+  match kind with
+  | 0 => [QAdd; QDrain; QOutcome 0 (q_reply 0)] ++ ra5 0
+  | 1 => [QAdd; QDrain; QOutcome 0 OTimeout; QRA 0; QRA 0; QRA 0; QOutcome 1 (q_reply 0)] ++ ra5 1
+  | _ => [QAdd; QDrain; QOutcome 0 OTimeout; QRA 0; QRA 0; QRA 0; QOutcome 1 OTimeout] ++ ra5 1
+  end.
+
+Definition q_inject (pos : nat) (l : list qlabel) : list qlabel :=
+  firstn pos l ++ [QAdd; QDrain] ++ skipn pos l.
+
+(** let everything that is still going on finish: outcomes by the server's policy, all goroutines *)
+Fixpoint q_settle (fuel kind : nat) (s : qstate) : qstate :=
+  match fuel with
+  | O => s
+  | S f =>
+    let outs := flat_map (fun ia : nat * (nat * nat * bool) => let '(i, (p, t, live)) := ia in
+                   if live then [QOutcome i (q_policy kind p t)] else [])
+                 (combine (seq 0 (length (qs_attempts s))) (qs_attempts s)) in
+    let s1 := qrun outs s in
+    let s2 := qrun (flat_map ra5 (seq 0 (length (qs_threads s1))) ++ repeat QDrain (qs_drains s1)) s1 in
+    q_settle f kind s2
+  end.
+
+Definition q_model (c : qcase) : qstate :=
+  q_settle 6 (qc_kind c) (qrun (q_inject (qc_pos c) (q_base (qc_kind c))) (q_init 1 true)).
+
+Definition qagree (c : qcase) : bool :=
+  let s := q_model c in
+  outcomes_eqb (q_outcomes s 0) (qc_obs0 c) && outcomes_eqb (q_outcomes s 1) (qc_obs1 c)
+  && Nat.eqb (q_sent s 0) (qc_sent0 c) && Nat.eqb (q_sent s 1) (qc_sent1 c).
+
+Definition qoracle (c : qcase) : bool :=
+  outcomes_eqb (qc_obs0 c) [if Nat.eqb (qc_kind c) 2 then OTimeout else q_reply 0]
+  && outcomes_eqb (qc_obs1 c) [q_reply 1].
+
+Definition qboth (c : qcase) : bool := qoracle c && qagree c.
